@@ -1,4 +1,5 @@
 import Agd.Gen.TrC14
+import Agd.Model.ProfileDB
 /-!
 # C14: the background clean-ups re-validate under the write lock — on translated source
 
@@ -77,6 +78,76 @@ theorem humanID_cleanup_no_device (db : S_profiledb_Default) (k : S_profiledb_hu
     removeHumanID db k (p, none) cur = some (deleted cur ["_", "_"]) := by
   simp [removeHumanID, deleted]
 
+/-! ## Production wiring and start-up (round 4): `internal/cmd` `ctxWithOptionalTimeout`, `initProfDB`;
+`profiledb` `needsFullSync`, `loadFileCache` -/
+
+/-- The context of a refresh: for `timeout = 0` it is made by `context.WithCancel` (no deadline), for
+every other value by `context.WithTimeout(parent, timeout)` — in every run, and the function returns
+exactly what that constructor returned. -/
+theorem ctx_zero_timeout_has_no_deadline (timeout : Int) (wc wt : AbsPtr × AbsPtr) :
+    ctxWithOptionalTimeout timeout wc wt =
+      if timeout = 0 then (wc.1, wc.2, [("WithCancel", ["_"])])
+      else (wt.1, wt.2, [("WithTimeout", ["_", toString timeout])]) := by
+  by_cases h : timeout = 0 <;> simp [ctxWithOptionalTimeout, h]
+
+/-- … which is the model's `ctxDeadline`: no deadline iff the configured timeout is zero. -/
+theorem ctx_matches_model (timeout : Nat) (now : Nat) (wc wt : AbsPtr × AbsPtr) :
+    (names (ctxWithOptionalTimeout (timeout : Int) wc wt).2.2 = ["WithCancel"]) ↔
+      Agd.ProfileDB.ctxDeadline timeout now = none := by
+  by_cases h : timeout = 0
+  · subst h; simp [ctxWithOptionalTimeout, names, Agd.ProfileDB.ctxDeadline]
+  · have h' : ¬ ((timeout : Int) = 0) := by omega
+    simp [ctxWithOptionalTimeout, names, Agd.ProfileDB.ctxDeadline, h, h']
+
+/-- `initProfDB`: the initial refresh runs once, under a context made by `ctxWithOptionalTimeout` for
+the configured timeout, which is cancelled last; the start goes on (no error) iff the refresh
+succeeded or failed with `context.DeadlineExceeded` — the model's `startGoesOn`. -/
+theorem initProfDB_spec (db : Option S_profiledb_Default) (timeout : Int) (c : AbsPtr × AbsPtr)
+    (refreshErr : Option String) (isDeadline : Bool) :
+    let r := initProfDB db timeout c refreshErr isDeadline
+    (names r.2).head? = some "ctxWithOptionalTimeout" ∧
+    callsOf "ctxWithOptionalTimeout" r.2 = [["_", toString timeout]] ∧
+    (callsOf "Refresh" r.2).length = 1 ∧
+    (names r.2).getLast? = some "cancel" ∧
+    (r.1.isNone = Agd.ProfileDB.startGoesOn
+      (match refreshErr with
+       | none => .ok
+       | some _ => if isDeadline then .deadlineExceeded else .otherError)) := by
+  cases refreshErr <;> cases isDeadline <;>
+    simp [initProfDB, names, callsOf, Agd.ProfileDB.startGoesOn]
+
+/-- `needsFullSync` is the model's function of the two clock readings and the two configured
+intervals. -/
+theorem needsFullSync_tr (db : S_profiledb_Default) (sinceFull sinceErr : Int) (errZero : Bool) :
+    (needsFullSync db () sinceFull errZero sinceErr).2.1 =
+      Agd.ProfileDB.needsFullSync db.fullSyncIvl db.fullSyncRetryIvl sinceFull
+        (if errZero then none else some sinceErr) := by
+  cases errZero <;> simp [needsFullSync, Agd.ProfileDB.needsFullSync]
+
+/-- `loadFileCache`: `setProfiles` is called — as a FULL replacement, followed by the assignment of
+the cache's sync time to `db.syncTime` and `db.lastFullSync` — iff `Load` returned a cache without
+error that holds at least one profile and one device; a load error is returned unless it is the
+version error, and nothing is applied then. -/
+theorem loadFileCache_spec (db : S_profiledb_Default) (w : AbsPtr) (c : Option S_internal_FileCache)
+    (lerr : Option String) (isVer : Bool) :
+    (loadFileCache db () w (c, lerr) isVer ()).map (fun r => (r.2.1, callsOf "setProfiles" r.2.2,
+        (names r.2.2).filter (fun n => n = "set db.syncTime" ∨ n = "set db.lastFullSync"))) =
+      some (match lerr, c with
+        | some e, _ => (if isVer then none else some e, [], [])
+        | none, none => (none, [], [])
+        | none, some fc =>
+          if fc.Profiles.length = 0 ∨ fc.Devices.length = 0 then (none, [], [])
+          else (none, [["_", "_", "_", "true"]], ["set db.syncTime", "set db.lastFullSync"])) := by
+  cases lerr with
+  | some e => cases isVer <;> simp [loadFileCache, callsOf, names]
+  | none =>
+    cases c with
+    | none => simp [loadFileCache, callsOf, names]
+    | some fc =>
+      have ht : toString true = "true" := by decide
+      by_cases h1 : fc.Profiles.length = 0 <;> by_cases h2 : fc.Devices.length = 0 <;>
+        simp [loadFileCache, callsOf, names, h1, h2, ht]
+
 end Agd.Tie.TrC14
 
 #print axioms Agd.Tie.TrC14.translation_complete
@@ -86,3 +157,8 @@ end Agd.Tie.TrC14
 #print axioms Agd.Tie.TrC14.device_cleanup_revalidates
 #print axioms Agd.Tie.TrC14.humanID_cleanup_revalidates
 #print axioms Agd.Tie.TrC14.humanID_cleanup_no_device
+#print axioms Agd.Tie.TrC14.ctx_zero_timeout_has_no_deadline
+#print axioms Agd.Tie.TrC14.ctx_matches_model
+#print axioms Agd.Tie.TrC14.initProfDB_spec
+#print axioms Agd.Tie.TrC14.needsFullSync_tr
+#print axioms Agd.Tie.TrC14.loadFileCache_spec
